@@ -87,7 +87,7 @@ CHECKS = {
         "equidistant (constant radius), spiral starts on its centre, thread turns = max(1,⌊|Δz|/pitch⌋); Direction.enforce; parametric() samples θ = k/n incl. 1, "
         "filters, and traces every surviving vertex through to_distance_mode()+move(); _filter_segments never drops the last sample; one traced segment puts the "
         "builder exactly on its vertex in both distance modes.",
-   note="A-pi, A-real; trigonometry only through named lemma instances T1–T6 (lemmas/Trig.lean); numpy elementwise = pointwise; np.linspace/np.diff/norm/mask indexing assumed. "
+   note="The shapes are verified against the callee contract of GCodeCore.to_absolute (proved against its body by its own unit). A-pi, A-real; trigonometry only through named lemma instances T1–T6 (lemmas/Trig.lean); numpy elementwise = pointwise; np.linspace/np.diff/norm/mask indexing assumed. "
         "arc_radius: centre at distance |radius| from both ends and minor/major side by the sign of the radius are discharged through separately proved field-identity lemmas. "
         "BOUNDED (not proof): spline clauses (scipy CubicSpline), polyline for list length 3, and an end-to-end run of all 8 shapes on the real builder."),
  "C11": dict(category="proof",
@@ -118,7 +118,7 @@ CHECKS = {
    text="GCodeCore.write is proved to make exactly one pass over the list registered at that moment, handing every writer the same bytes "
         "utf8(rstrip(statement) ++ line ending) (loop contract: the loop body is the single writer.write call); add_writer/remove_writer are "
         "proved against a sequence model with the duplicate-free invariant (order of the others preserved); teardown disconnects every "
-        "registered writer with the wait flag and empties the list; flush reaches every writer; FileWriter.write/flush/disconnect are proved "
+        "registered writer with the wait flag and empties the list; flush reaches every writer; a writer loop whose body does more than the one call must leave the list it iterates over unchanged (frame obligation); FileWriter.write/flush/disconnect are proved "
         "against an assumed file-object contract for path, text-stream and binary-stream outputs (append byte for byte, publish on "
         "flush/close, caller's streams left open).",
    note="A-writers (registered writers do not raise / do not touch the builder), A-str, file-object and Path.open('wb+') contracts assumed and exercised by a BOUNDED "
@@ -152,7 +152,8 @@ CHECKS = {
         "calls this is 'the received stream cut after each newline, nothing lost, duplicated or reordered' for every fragmentation.",
    note="A-str (bytes are z3 strings over code units), socket/selector contracts assumed, the chunk list is represented by (join of all chunks but the last, last chunk) "
         "which is all the code observes; first-occurrence facts of bytes.find are added as lemma instances (true of str.indexof). Termination/blocking is not claimed. "
-        "Discharged by cvc5 --strings-exp where z3's sequence solver returns unknown."),
+        "Discharged by cvc5 --strings-exp where z3's sequence solver returns unknown. A violated clause is replayed natively: the real method is run on a Device "
+        "holding the model's buffer with a scripted socket/selector, and conservation, line shape, READ_EMPTY/READ_EOF conditions and the buffer invariant are evaluated on the real result."),
  "C18": dict(category="proof",
    text="_parse_message: loop contract over the token sequence, stated for one arbitrary letter κ: after the loop κ reads the value of its FIRST "
         "occurrence in the report (single-letter fields, Grbl FS -> F,S, MPos/WPos/PRB -> X,Y,Z,A,B,C in order) and keeps its earlier reading if the "
@@ -166,7 +167,11 @@ CHECKS = {
         "column = x) inside (orientation as a call-argument obligation), SparseHeightMap.get_depth_at is scale x interpolator(x, y); SparseHeightMap wires "
         "LinearNDInterpolator(zip(col 0, col 1), col 2, fill_value=0.0); set_scale/set_tolerance guards with frames; the tolerance filter loop (both copies) under a loop "
         "contract: output begins with the first and ends with the last sample, and a sample is dropped exactly when its height differs from the previously KEPT one by "
-        "less than the tolerance.",
+        "less than the tolerance. sample_path is _filter_points(_interpolate_line(line), the map's tolerance) and rejects a line that is not 4 numbers; _interpolate_line "
+        "(both classes, generic sample index) gives every sample row its own coordinates and get_depth_at at them, with the samples taken from linspace(x1,x2,k+1)/"
+        "linspace(y1,y2,k+1), k >= 1 (sparse) or draw.line(round(x1),round(y1),round(x2),round(y2)) (raster); RasterHeightMap.from_path reads with "
+        "IMREAD_GRAYSCALE|IMREAD_ANYDEPTH, _to_height_map divides by the full scale of the pixel type (65535 / 255), _create_interpolator puts pixel (row, column) "
+        "at spline coordinates (row, column); constructors start with scale 1 and a positive tolerance; FlatHeightMap is zero everywhere and samples the two line ends.",
    note="The interpolants themselves (scipy RectBivariateSpline / LinearNDInterpolator exact at samples, inside [min, max] in the hull, 0 outside; skimage.draw.line and "
         "np.linspace end points) are ASSUMED contracts, exercised only by a bounded stand-in on random images / point sets with the real libraries. A-real."),
  "C20": dict(category="proof",
